@@ -75,7 +75,7 @@ Lemma sem_setf_cache o f v : is_cache f = true -> sem_obj (setf o f v) = sem_obj
 Proof.
   intros Hc. unfold sem_obj, is_scratch.
   rewrite class_of_setf by (apply is_cache_not_class; assumption).
-  destruct (String.prefix "Scratch." (class_of o)); auto. apply filter_setf_cache. assumption.
+  destruct (scratch_class (class_of o)); auto. apply filter_setf_cache. assumption.
 Qed.
 
 Lemma sem_setf_scratch o f v : is_scratch o = true -> f <> "__class__" -> sem_obj (setf o f v) = sem_obj o.
